@@ -23,7 +23,8 @@ EXPLANATION = (
     " (R9) a pointer naming a missing file leads to recovery, not to 'no table' (shared with C10.R2); (R10) no truthiness test of a version number (shared with C10.R12); R2 additionally requires the conflict handler to catch exactly CASConflictError."
     ' (R11) the conditional pointer PUT is never retried (C20.R3); (R12) only the sanctioned functions write the pointer (C09.R1).'
     " (R13) recovery's S3 listing walks every page (C20.R10); (R14) UTC ages (C20.R11); (R15) an AMBIGUOUS create-if-absent pointer write keeps the creator's metadata file (no delete on that path of initialize_table)."
-    ' (R16) the schema is written once: stores to TableMetadata.schemas / current_schema_id only in the creation path and the deserialiser.')
+    ' (R16) the schema is written once: stores to TableMetadata.schemas / current_schema_id only in the creation path and the deserialiser.'
+    ' (R17) recovery orders versions as integers; (R18) a lost create race is reported as CASConflictError (exact code set, C08.R3).')
 NOT_DECIDED = "the interleavings; that every caller ends on the same table at run time"
 
 MM = "metadata_manager.MetadataManager"
@@ -50,7 +51,14 @@ def check(ctx: Ctx) -> None:
     from .c20 import r11_utc_ages
     r11_utc_ages(ctx, "C18.R14")
     schema_written_once(ctx)
+    # the loser of a create race adopts the winner only if its create-if-absent PUT reports the loss as CASConflictError: every
+    # precondition-failure answer of the store (412 and 409 ConditionalRequestConflict) must be mapped, nothing else
+    from .c08 import r3 as c08_r3
+    ctx.shared(c08_r3, "C08.R3", "C18.R18", "a lost create race is reported as a conflict (exact precondition-failure code set)")
     init_ambiguous_keeps_v0(ctx)
+    # create_table on a table whose pointer is lost adopts the numerically latest version (not v9 over v10)
+    from .c10 import r11 as c10_r11
+    c10_r11(ctx, "C18.R17")
 
 
 SCHEMA_OWNERS = {
